@@ -88,9 +88,13 @@ theorem done_mono (s : St) (a : Act) (s' : St) (h : step s a = some s') (f : Nat
     split at h
     · split at h
       · split at h
+        · cases h; exact hf
+        · split at h
+          · cases h
+          · cases h; exact hf
+      · split at h
         · cases h
         · cases h; exact hf
-      · cases h; exact hf
     · cases h
   | cancelEnd g =>
     simp only [step] at h
